@@ -448,6 +448,45 @@ def f_close_during_connect():
     return st == "CLOSED" and states == ["CLOSED"] and closed, f"state after close()+connect completion: {st}, status log {states}, new link closed={closed}"
 
 
+@finding("C12/delivery/overlong-line", "C12")
+def f_overlong_line():
+    """a garbage line longer than the StreamReader limit (64 KiB) made readline() raise ValueError, which the receive loop took for a lost
+    connection: reconnect, and everything the gateway sent afterwards on the old link was lost"""
+    import nmea2000.ioclient as io_
+
+    async def main():
+        opened = []
+
+        async def fake_open(host, port):
+            rd = asyncio.StreamReader()
+            opened.append(rd)
+            return rd, _FakeWriter()
+        io_.asyncio.open_connection = fake_open
+        c = io_.YachtDevicesNmea2000Gateway("h", 1)
+        got = []
+
+        async def cb(m):
+            got.append(m.PGN)
+        c.set_receive_callback(cb)
+        await c.connect()
+        rd = opened[0]
+        rd.feed_data(b"00:01:54.430 R 15F11910 00 00 00 E5 0B 1D FF FF\r\n")
+        rd.feed_data(b"x" * 70000 + b"\r\n")
+        rd.feed_data(b"00:01:54.530 R 09F11203 01 A0 5A FF 7F FF 7F FD\r\n")
+        rd.feed_data(b"00:01:54.630 R 09FD0207 05 F4 01 30 5D FA FF FF\r\n")
+        await asyncio.sleep(0.3)
+        n = len(opened)
+        await c.close()
+        return got, n
+    import asyncio as _a
+    real_open = _a.open_connection
+    try:
+        got, n = _run(main())
+    finally:
+        _a.open_connection = real_open
+    return got == [127257, 127250, 130306] and n == 1, f"delivered {got}, connections opened {n} (a decoder returns 127257, 127250, 130306 for the stream's lines)"
+
+
 @finding("C14/task-alive", "C14")
 def f_close_from_status_callback():
     """close() called from the status callback at the first fault (the callback runs inside the receive task) cancelled the task it
@@ -489,6 +528,20 @@ def f_close_from_status_callback():
     finally:
         _a.open_connection = real_open
     return (not raised) and (not alive) and st == "CLOSED", f"status log {states}, close() raised {raised}, queue consumer still pending: {alive}, state {st}"
+
+
+@finding("C17/hash/text-key-None", "C17")
+def f_hash_text_key():
+    """the key string was built with str(raw): an absent station id (raw None) and the station id "None" gave the same hash; text containing '_'
+    could also run into the next key part"""
+    from nmea2000.decoder import NMEA2000Decoder
+    d = NMEA2000Decoder(build_network_map=True)
+    d.decode_basic_string("2022-09-10T12:10:16.614Z,6,60928,5,255,8,fb,9b,70,22,00,9b,50,c0", True)
+    head = "00,10,00,10,00,00,00,01,00,00,00,01,00,00,00,01,00,01,00"
+    m1 = d.decode_basic_string("2022-09-10T12:10:16.614Z,6,130320,5,255,19," + head, True)
+    m2 = d.decode_basic_string("2022-09-10T12:10:16.614Z,6,130320,5,255,25," + head + ",06,01,4e,6f,6e,65", True)
+    r1, r2 = m1.get_field_by_id("stationId").raw_value, m2.get_field_by_id("stationId").raw_value
+    return (r1 != r2) and m1.hash != m2.hash, f"130320 station id raw {r1!r} -> hash {m1.hash}; raw {r2!r} -> hash {m2.hash}"
 
 
 @finding("C18/units/130818.degrees-twice", "C18")
